@@ -68,6 +68,9 @@ def run(tier):
                               scripts=core.random_scripts(seed + 2, n // 2, 20, 2, w)))
     core.conform(ck, plans, invariants=core.STATE_INVS + ['C06_UpgradedOnlyViaHandshake',
                                                           'C06_TransportAllowed'])
+    # the handshake at one primitive per step, every flag write a step of its own, under every
+    # thread schedule (EioQueueFineUp)
+    core.l2_upgrade(ck, th, seed)
     ck.cov['rule'] = ('case = one environment script on one implementation/configuration; distinct by '
                       'recorded action sequence; the handshake family enumerates frame sequences '
                       'exhaustively up to the stated length over 11 frame classes')
